@@ -28,7 +28,9 @@ ASSUMPTIONS = ["CPython 3.12.1 tokenize / ast.parse are the reference (incl. its
 
 PREFIXES = ["f", "F", "rf", "fr", "Rf", "fR", "rF", "Fr", "RF", "FR", "fR", "Rf"]
 QUOTES = ['"', "'", '"""', "'''"]
-LITERALS = ["", "x", "x y", "\\n", "\\x41", "\\\\", "{{", "}}", "{{x}}", "OTHERQ", "\u00e9", "\\'", "%s", "#", "\\N{DIGIT ONE}"]
+LITERALS = ["", "x", "x y", "\\n", "\\x41", "\\\\", "{{", "}}", "{{x}}", "OTHERQ", "\u00e9", "\\'", "%s", "#", "\\N{DIGIT ONE}",
+            # a backslash in front of a character that is no escape: ASCII, Latin-1, astral; an escaped brace; text that reads like code
+            "\\z", "\\\u00e9", "\\\U0001f600", "\\{{", "None", "if", ")", ","]
 FIELDS = [
     "{a}", "{a!r}", "{a!x}", "{a!rr}", "{a=}", "{a = }", "{a:>3}", "{a:{w}}", "{a:{w}.{p}}", "{a!r:^{w}}", "{f'{b}'}", "{a\n}", "{(lambda: 1)()}",
     "{ {'k': 1}['k'] }", "{a:}", "{a!s:x}", "{a,}", "{*a,}", "{a if b else c}", "{a:{{}}}", "{a:=3}", "{(a:=3)}", "{a!r=}", "{a=!r}", "{a=:>3}", "{a.b[0]()}",
@@ -43,6 +45,12 @@ FIELDS = [
     # a debug field with a format spec that holds an escape, a nested field, a line continuation
     "{a=:\\t>4}", "{a=!r:\\x41^{w}}", "{a=:\\\n>3}", "{a = :{w}\\N{DIGIT ONE}}",
     "{a:{w:{p}}}", "{a:{w:{p:{q}}}}", "{a:x{w:y{p}z}}", "{a:{w!r:{p}}}", "{a! r}", "{a !r}", "{a!\nr}",
+    # backslashes and quotes in a format spec: an escaped quote, an escaped backslash, a backslash before a brace, a bare quote
+    "{a:\\'}", "{a:\\\"}", "{a:a\\'b}", "{a:\\}", "{a:\\\\}", "{a:\\{w}}", "{a:\\\u00e9>9}", "{a:x'\n}", "{a:x\"\n}", "{a:'}", "{a:\"}", "{a!r:\\'^{w}}",
+    # spec and expression text that reads like a keyword, an operator or a bracket
+    "{a:if}", "{a:None}", "{a:)}", "{a:,}", "{a:lambda}", "{lambda x:None}", "{lambda:True}", "{lambda x:...}", "{a if b else:c}", "{a:=}", "{a:not in}",
+    # escapes inside the string literals of a debug field (CPython 3.12.1 decodes them in the debug text)
+    "{'\\t'=}", "{\"\\x41\" + a = }", "{'\\\\'=}", "{'\\N{DIGIT ONE}'=!r}", "{'\\z'=}",
 ]
 ADJ = ["'s' {F}", "{F} 's'", "{F} {F}", "{F} {G}", "f({F}, {{}})", "x = {F}; y = {{1: 2}}", "{F} if a else {{}}", "b'x' {F}", "{F}\n{G}\n", "({F}\n 's'\n 't')",
        "print({F}, {G}, sep='{{')", "[{F} for a in {{1}}]", "p{F}", "{F}.format(1)", "u's' {F}", "r's' {F}"]
